@@ -15,6 +15,7 @@ type vField struct {
 	name, typ string
 	hasTag    bool
 	tag       string   // text between the backquotes
+	rawLit    string   // when set: the tag literal exactly as written (e.g. an interpreted string literal), tag is ignored
 	comment   string   // full comment text incl. "//", "" = none
 	comment2  string   // a second comment in the same trailing group (the first must then be a /* */ comment)
 	doc       string   // a comment on the line above the field (its doc comment), "" = none
@@ -100,6 +101,9 @@ func vBuildSource(pre string, structs []vStructSrc, post string) (string, *ast.F
 				src += vGap
 				vp := token.Pos(len(src) + 1)
 				lit := "`" + fd.tag + "`"
+				if fd.rawLit != "" {
+					lit = fd.rawLit
+				}
 				src += lit
 				af.Tag = &ast.BasicLit{ValuePos: vp, Kind: token.STRING, Value: lit}
 			}
